@@ -71,7 +71,7 @@ func RuleMustPass(r *Report, f *Func, rule, what string, gate Matcher, deferOK b
 		return false
 	}
 	g := f.Graph()
-	pred := g.Calling(gate)
+	pred := g.CallingDeep(gate)
 	if deferOK {
 		pred = AnyOf(pred, g.Deferring(gate))
 	}
@@ -161,7 +161,7 @@ func RulePrecede(r *Report, f *Func, rule string, aName string, a Matcher, bName
 }
 
 func rulePrecedeG(r *Report, g *Graph, f *Func, rule string, aName string, a Matcher, bName string, b Matcher) bool {
-	pa, pb := g.Calling(a), g.Calling(b)
+	pa, pb := g.CallingDeep(a), g.Calling(b)
 	bs := g.Select(pb)
 	construct := f.String()
 	if len(bs) == 0 {
